@@ -535,3 +535,14 @@ def r5(ctx):
                     'the operation index is compared with the word end by `%s` (line %d): index == end is the whitespace after the word, it must still belong to that word '
                     '(a deleted whitespace is otherwise attributed to the next word and the closing assertion fires)' % (op, bb_.blocks[gd.block].term.span['line']),
                     bb_.blocks[gd.block].term.span)
+
+
+@rule('C13', 'R-C13-6', 'T11 SIBLING (one segmentation)',
+      'every CharString::new of the metrics code receives the caller\'s grapheme flag unchanged (a parameter, configuration field or '
+      'captured variable): a site that "optimises" the flag (e.g. `use_graphemes && !s.is_ascii()`) segments "\\r\\n" and friends '
+      'differently from the sites it must agree with')
+def r_segflag(ctx):
+    from rules.common import check_segmentation_flag
+    n = check_segmentation_flag(ctx, [ctx.body(n) for n in ['metrics::_group_words']], 'metrics')
+    if n == 0:
+        raise AnchorMissing('CharString::new sites of the metrics code')
